@@ -191,7 +191,12 @@ def implied_conditions(f, blk, taken_true):
         while c is not None and c['k'] == 'UnaryOperator' and c.get('op') == '!':
             truth = not truth
             c = f.strip(f.ch(c)[0], casts=True)
-        if c is not None and c['k'] == 'DeclRefExpr' and c.get('dk') == 'var' and \
+        if c is not None and c['k'] == 'BinaryOperator' and c.get('op') in ('&&', '||') and truth != taken_true:
+            # `!(a && b)`: the CFG evaluates the operand as a value and branches on its negation
+            out = _dnf(f, c, truth, 0)
+            if len(out) > 8:
+                out = []
+        elif c is not None and c['k'] == 'DeclRefExpr' and c.get('dk') == 'var' and \
                 (c.get('ty') or '').replace('const ', '').strip() == 'bool':
             init = _adjacent_init(f, blk, c['id'])
             if init is not None:
@@ -228,6 +233,24 @@ def _adjacent_init(f, blk, var):
     calls of const member functions and declarations of other locals may lie in between."""
     pos = None
     init = None
+    # the straight-line code before the branch: the block itself and the chain of blocks that flow into it without any
+    # other way in or out (a helper spliced in by yk/inline.py ends in such a block)
+    chain = list(blk.elems)
+    cur = blk.id
+    preds = f.preds()
+    for _ in range(3):
+        ps = preds.get(cur, []) if not isinstance(cur, tuple) else []
+        if len(ps) != 1:
+            break
+        pb = f.blocks[ps[0][0]]
+        if len([x for x in pb.succ if x is not None]) != 1 or (pb.term and 'cond' in pb.term):
+            break
+        chain = list(pb.elems) + chain
+        cur = pb.id
+
+    class _B:
+        elems = chain
+    blk = _B
     for i, e in enumerate(blk.elems):
         n = f.node(e)
         if n['k'] == 'DeclStmt' and any(v['id'] == var and 'init' in v for v in n.get('vars', [])):
